@@ -63,7 +63,9 @@ func NewEngine(pass *analysishelper.EnhancedPass) *Engine {
 
 		// The file will be fake (conceptually "\n" * 65535) if it is imported from archive. So we
 		// check if there are any gaps between the line starts to determine if the file is fake.
-		isFake := true
+		// A real file that consists of a single line has no gaps either, so the size the importers
+		// reserve for a fake file is required as well.
+		isFake := file.Size() == _fakeFileMaxLines
 		prev := -1
 		for _, pos := range file.Lines() {
 			if prev != -1 && pos-prev > 1 {
